@@ -323,9 +323,9 @@ def doc_pool(seed, n):
 
 
 def plan(tier):
-    ndocs = 2 if tier == "quick" else 40
+    ndocs = 2 if tier == "quick" else 150
     return [{"name": "table%d" % i, "i": i, "of": 16, "docs": ndocs} for i in range(16)] + \
-        [{"name": "placed%d" % i, "type": "placed", "n": 120 if tier == "quick" else 1500} for i in range(8)]
+        [{"name": "placed%d" % i, "type": "placed", "n": 120 if tier == "quick" else 8000} for i in range(8)]
 
 
 def run(shard, seed, ctx):
